@@ -535,9 +535,21 @@ def _bucketing(prog, res):
   if not tests:
     raise AnalysisError('_bucketize_consequtive_equal_dims: run detection '
                         'vanished')
-  probs = _bad(tests[0].test, 'start of a new bucket',
-               'lattice_sizes[i] != lattice_sizes[i - 1]',
-               'lattice_sizes[i - 1] != lattice_sizes[i]')
+  # normal form: a two-armed if tests with == (arms swapped if the source
+  # says !=); the equal arm extends the run, the other arm closes it
+  t = tests[0]
+  probs = _bad(t.test, 'continuation of a bucket',
+               'lattice_sizes[i] == lattice_sizes[i - 1]',
+               'lattice_sizes[i - 1] == lattice_sizes[i]')
+  grows = [norm_text(x) for x in t.body]
+  closes = [norm_text(x) for x in t.orelse]
+  if grows != ['current_size += 1']:
+    probs.append('the run is not extended by one where consecutive sizes '
+                 'are equal (%s)' % grows)
+  if not (any(c.startswith('bucket_sizes.append(current_size)')
+              for c in closes) and 'current_size = 1' in closes):
+    probs.append('the run is not closed (size appended, counter reset) '
+                 'where consecutive sizes differ (%s)' % closes)
   res.check(not probs, 'H7', fn.qualname + '|consecutive-runs', fn.loc(),
             'a new bucket starts where consecutive sizes differ',
             '; '.join(probs))
